@@ -270,6 +270,13 @@ class Checker:
                                              "pairs_text_vs_sameExpr": 0, "pairs_sameExpr_vs_sameUpToCtx": 0})
         tot["total"] += 1
         tot["holds"] += 1 if wfd["wf_dump"] else 0
+        tot["conforms_holds"] = tot.get("conforms_holds", 0) + (1 if wfd["conforms"] else 0)
+        ctx.dist("hypothesis conforms (one list of field names per node type, of C15_hash_iff_sameUpToCtx) " +
+                 ("holds" if wfd["conforms"] else "FAILS") + " on the real tree")
+        if not wfd["conforms"]:
+            ctx.broken.append("corr:conforms-on-real-tree")
+            if len(ctx.notes) < 5:
+                ctx.notes.append("two nodes of one type with different field names in a real tree: " + src[:300])
         tot["expression_pairs"] += wfd["exprs"] * (wfd["exprs"] - 1) // 2
         for k in ("pairs_same_text", "pairs_text_vs_sameExpr", "pairs_sameExpr_vs_sameUpToCtx"):
             tot[k] += wfd[k]
@@ -686,8 +693,9 @@ def run(ctx):
         "to load/store context ⇒ same `_hash`, for hash sources that are the structural dump dumpNoCtx)",
         "C15_dump_injective / C15_dump_iff (on wfDump trees the context-free dump text is injective up to the fields it does "
         "not print: same text ⇔ sameExpr), C15_hash_iff (same `_hash` ⇔ same expression up to load/store context, both "
-        "directions), C15_hash_converse, C15_sameExpr_of_sameUpToCtx, C15_sameUpToCtx_too_fine (why the iff is stated with "
-        "sameExpr: an absent optional field and a None one print the same text)",
+        "directions), C15_hash_iff_sameUpToCtx (the same iff with sameUpToCtx, the relation of C15_hash_structural, on trees "
+        "with one list of field names per node type: conforms), C15_hash_converse, C15_sameExpr_of_sameUpToCtx, "
+        "C15_sameUpToCtx_too_fine (without conforms an absent optional field and a None one print the same text)",
         "C15_stateless / C15_sequence / C15_reset_needed (the reset step makes the result independent of the factory state)",
         "C15_tweak_*_partial, C15_tweaks_full, C15_flatten_tweaked (the six passes are tree-level tweaks; composed; on flatten_ast)",
         "C15_escape_at_dump, C15_escapePos_no_pos, C15_escaped_value_not_poslike (escaped terminal values)",
@@ -697,9 +705,10 @@ def run(ctx):
         "terminal repr a Python string / bytes literal or a delimiter-free token — evaluated by c15.wf_dump on every exported "
         "tree, holds/total in cov.wf_dump; excluded by the predicate: complex with a real part, tuple / frozenset constants, "
         "which ast.parse never produces) and reprsAreDumps (the exported hash source is dumpNoCtx of the node)",
-        "that sameExpr (the relation of C15_hash_iff: ctx fields and absent optional fields erased) is sameUpToCtx on real "
-        "trees — compared on every pair of the first 300 expressions of every exported tree; proved only "
-        "sameUpToCtx ⇒ sameExpr; the length-prefixed canonical-form oracle of c15.spec is kept",
+        "that real trees have one list of field names per node type (conforms, hypothesis of C15_hash_iff_sameUpToCtx: "
+        "evaluated on every exported tree with the schema read off the tree; sameExpr and sameUpToCtx are also compared on "
+        "every pair of the first 300 expressions of every exported tree and on the expr-pairs stream against the real "
+        "hashed texts); the length-prefixed canonical-form oracle of c15.spec is kept",
         "ast.parse itself (tree and line numbers are inputs of the model)",
         "nothing about the tweaks themselves any more: C15_stage6_eq_tweak proves the staged tweaks equal the one-shot "
         "`tweak` under wfTweak (the driver still compares them on every tree, and reports wfTweak holds/total)",
